@@ -1,3 +1,4 @@
 import PhysisModel.Base.Bytes
 import PhysisModel.Base.BytesLemmas
+import PhysisModel.Properties.C11
 import PhysisModel.Properties.C12
